@@ -323,7 +323,7 @@ func runC08(c *Ctx) {
 	c.Check(fname(vdc)+"#delegation-entries-copied", vdc.Pos(), len(shared) == 0 && elemCopied, ifelse(len(shared) == 0 && elemCopied, "every entry stored into the copy's delegation slice is the result of DelegationFrom.DeepCopy", "the copy's delegation slice holds the source's *DelegationFrom entries: a penalty applied through one state edits the entries of the other, whose totals and statistics were not adjusted"))
 	// ------------------------------------------------------------ V10
 	c.Rule("C08.V10", "ALWAYS-WITH", "the address index lists exactly the validators that have a record: every write of a validator record into the validator trie (updateStakingData(addr, validatorFlag, …)) is accompanied on the same paths by validatorIndex.Add of that address, every deletion (deleteStakingData(addr, validatorFlag)) by validatorIndex.Delete. The in-memory index is re-read from the trie while it is non-empty, which forgets validators created since the last root computation; the Add beside the record write is what puts them back before the index is saved")
-	c.Min(2)
+	c.Min(1)
 	{
 		isValFlag := func(v ssa.Value) bool {
 			u, ok := stripConv(v).(*ssa.UnOp)
@@ -340,16 +340,41 @@ func runC08(c *Ctx) {
 			}
 			for _, ci := range callInstrs(fn) {
 				o := calleeObj(ci)
-				if o == nil || !(o.Name() == "updateStakingData" || o.Name() == "deleteStakingData") {
+				if o == nil {
 					continue
 				}
-				args := callArgs(ci)
-				if len(args) < 2 || !isValFlag(args[1]) {
+				var args []ssa.Value
+				want := ""
+				switch {
+				case o.Name() == "updateStakingData" || o.Name() == "deleteStakingData":
+					args = callArgs(ci)
+					if len(args) < 2 || !isValFlag(args[1]) {
+						continue
+					}
+					want = ifelse(o.Name() == "deleteStakingData", "Delete", "Add")
+				case o.Name() == "TryDelete" || o.Name() == "TryUpdate":
+					// the helper inlined: a direct trie write whose key is built from validatorFlag
+					a := callArgs(ci)
+					if len(a) == 0 || !derivesFrom(a[0], isValFlag) {
+						continue
+					}
+					// the address written into the key
+					var addr ssa.Value
+					backward(a[0], func(v ssa.Value) bool {
+						if cc, ok := v.(*ssa.Call); ok && addr == nil {
+							if co := calleeObj(cc); co != nil && co.Name() == "Bytes" && recvName(co) == "Address" {
+								addr = callRecv(cc)
+							}
+						}
+						return addr == nil
+					})
+					if addr == nil {
+						continue
+					}
+					args = []ssa.Value{addr}
+					want = ifelse(o.Name() == "TryDelete", "Delete", "Add")
+				default:
 					continue
-				}
-				want := "Add"
-				if o.Name() == "deleteStakingData" {
-					want = "Delete"
 				}
 				n++
 				c.sites++
